@@ -247,9 +247,36 @@ def check_units(rec):
     rec.notes.append(f"{seen} accepted (unit, magnitude) pairs from {len(names)} registry names")
 
 
+def check_parser_classes(rec):
+    """The schema classes that come with a custom Parser (they can be given in short forms when used as a field)
+    are schemas of their own: their instances survive every form too."""
+    from metador_core.schema.common import NumValue, Pixels, SIValue
+
+    cases = [(NumValue, dict(value=5, unitText="m", minValue=1, maxValue=10, name="length")), (NumValue, dict(value=0.5)),
+             (NumValue, dict(value=3, unitText="px", description="three")), (Pixels, dict(value=5)), (Pixels, dict(value=7, name="w")),
+             (SIValue, dict(value=2.5, unitText="meter")), (SIValue, dict(value=1, unitText="kg", name="mass", alternateName=["m"]))]
+    for cls, kw in cases:
+        try:
+            o = cls(**kw)
+        except Exception:  # noqa: BLE001
+            rec.cls("rejected_at_construction")
+            continue
+        for form, ser in (("json", o.json), ("yaml", o.yaml), ("bytes", lambda: bytes(o))):
+            try:
+                back = cls.parse_raw(ser())
+                ok, why = back == o, f"{back!r}"
+            except Exception as e:  # noqa: BLE001
+                ok, why = False, f"{type(e).__name__}: {str(e)[:150]}"
+            if not ok:
+                rec.fail(f"C12:parser-class-roundtrip-differs:{form}", dict(kind="parser-class", cls=cls.__name__, data=kw),
+                         f"{cls.__name__}(**{kw}) read back from its {form} form: {why[:200]}", f"{o!r}")
+        rec.case(nt_key=["parser-class", cls.__name__, sorted(kw)], classes=["parser_class_instance"], sample=dict(kind="parser-class", cls=cls.__name__, data=kw))
+
+
 def run_shard(shard, tier, seed, rec):
     if shard["kind"] == "units":
         check_units(rec)
+        check_parser_classes(rec)
         return
     if shard["kind"] == "installed":
         from metador_core.plugins import schemas
